@@ -268,7 +268,7 @@ static void inline reb_whfast512_kepler_step(const struct reb_simulation* const 
     denom = _mm512_mul_pd(denom,sixteen);\
     \
     denom = _mm512_fnmadd_pd(_mm512_mul_pd(f,fpp),twenty, denom);\
-    /* not included: _mm512_abs_pd(denom) */;\
+    denom = _mm512_abs_pd(denom); /* as in reb_whfast_kepler_solver. Otherwise sqrt() returns NaN for some (small) timesteps */\
     denom = _mm512_sqrt_pd(denom);\
     denom = _mm512_add_pd(fp, denom);\
     \
